@@ -8,6 +8,7 @@ a case.  Every case is rendered into a real gtirb interval / module and run
 through the real functions and through an empty RewritingContext.apply()
 (harness/intervals/runner.py); TLC judges every observed run against the
 Level A clauses (spec/TraceIntervals.tla)."""
+import glob
 import json
 import os
 import time
@@ -21,18 +22,31 @@ from ..core import MachineryError, Report
 FAMILIES = {
     "quick": [("geo", "Intervals_geo_q.cfg", 3), ("uninit", "Intervals_uninit_q.cfg", 3),
               ("align", "Intervals_align_q.cfg", 4), ("items", "Intervals_items_q.cfg", 3),
-              ("apply", "Intervals_apply_q.cfg", 3)],
+              ("apply", "Intervals_apply_q.cfg", 3), ("alpatch", "Intervals_alpatch_q.cfg", 1),
+              ("addal", "Intervals_addal_q.cfg", 3)],
     "thorough": [("geo", "Intervals_geo_t.cfg", 3), ("uninit", "Intervals_uninit_t.cfg", 4),
                  ("align", "Intervals_align_t.cfg", 5), ("align3", "Intervals_align3_t.cfg", 2),
-                 ("items", "Intervals_items_t.cfg", 3), ("apply", "Intervals_apply_t.cfg", 3)],
+                 ("items", "Intervals_items_t.cfg", 3), ("apply", "Intervals_apply_t.cfg", 3),
+                 ("alpatch", "Intervals_alpatch_t.cfg", 1), ("addal", "Intervals_addal_t.cfg", 4)],
 }
 PREFIX = "C10_"
 
 
 def load_open_findings(prop: str) -> Dict[str, dict]:
-    """Open findings of this property (known_findings.json)."""
-    return {k["id"]: k for k in core.load_known()
-            if k.get("status") == "open" and prop in k.get("properties", [k["property"]])}
+    """Open findings of this property: known_findings.json, plus entries that
+    still wait next to their reproduction (findings/<ID>/entry.json) to be
+    moved into the shared file."""
+    known = {k["id"]: k for k in core.load_known()
+             if k.get("status") == "open" and prop in k.get("properties", [k["property"]])}
+    for path in sorted(glob.glob(os.path.join(tlc.VERIF, "findings", "*", "entry.json"))):
+        try:
+            with open(path) as f:
+                e = json.load(f)
+        except (OSError, ValueError):
+            continue
+        if e.get("status") == "open" and prop in e.get("properties", [e.get("property")]):
+            known.setdefault(e["id"], e)
+    return known
 
 
 def generate_family(fam: str, cfg: str, workers: int, dest: str, timeout: int) -> dict:
@@ -124,7 +138,7 @@ def judge(rep: Report, prop: str, verdicts: List[dict], case_line: Dict[str, str
     known = load_open_findings(prop)
     drift: Dict[str, int] = {}
     excs: Dict[str, int] = {}
-    want_samples = {"geo": 1, "uninit": 1, "align": 1, "apply": 1, "items": 1}
+    want_samples = {"geo": 1, "uninit": 1, "align": 1, "apply": 1, "items": 1, "alpatch": 1}
     for v in verdicts:
         rep.traces += 1
         rep.evaluations += 1
@@ -160,6 +174,11 @@ def judge(rep: Report, prop: str, verdicts: List[dict], case_line: Dict[str, str
                                    "diff": fl.get("diff"), "replay": path})
     rep.extra["level_b_drift"] = drift or {"none": 0}
     rep.extra["exceptions_observed"] = excs or {"none": 0}
+    shared = {k["id"] for k in core.load_known()}
+    for kid in rep.known_matched:
+        if kid not in shared:
+            rep.notes.append(f"KNOWN-FINDING {kid} (findings/{kid}/entry.json, not yet in known_findings.json): "
+                             f"{known[kid].get('what', '')}")
     if drift:
         rep.notes.append(f"Level B (line-by-line model) differs from the observation in {sum(drift.values())} "
                          f"runs ({drift}); information only, Level A judged them")
